@@ -20,7 +20,8 @@
                                   subscriptions.lock().await                                                   (SLocking)
                                   Entry::Occupied -> receiver.activate_cloned()
                                   Entry::Vacant   -> [bus && signal rule: call_method(AddMatch).await?]        (SAdd)
-                                                     subscriptions.insert; msg_senders.lock().await.insert     (SChecked: the insert)
+                                                     msg_senders.lock().await; is_empty() -> Err(BrokenPipe) (re-test, fix 3703ee13)
+                                                     subscriptions.insert; senders.insert                    (SChecked: the insert)
         send                      socket_write.lock(); send_message: one sendmsg per chunk, first error aborts (C18 shows sends are
                                   mutually exclusive: a send is one step here, costing `cost` sendmsg calls)
    zbus/src/message_stream.rs     MessageStream::poll_next = Receiver::poll_next: item | pending | None once closed and drained
@@ -259,7 +260,11 @@ Definition tstep (c : cfg) (s : st) (i : nat) : option st :=
       | SChecked =>
           if locked s then None
           else match src with
-               | Some r => let x := new_rx c (CSub r) s in put (add_sub s r) (SOpen x)
+               | Some r =>
+                   (* `let mut senders = msg_senders.lock().await; if senders.is_empty() { return Err(BrokenPipe) }` (fix 3703ee13):
+                      the reader has gone while we waited; nothing is inserted, the subscriptions guard is dropped *)
+                   if is_nil (s_senders s) then put (set_sublock s false) (SFail OPipe)
+                   else let x := new_rx c (CSub r) s in put (add_sub s r) (SOpen x)
                | None => put (set_sublock s false) (SOpen (new_rx c CAll s))
                end
       | SOpen x =>
